@@ -18,7 +18,7 @@ Reset == /\ l <= Len(Trace) /\ Trace[l].ev = "reset"
 Act ==
   /\ l <= Len(Trace) /\ Trace[l].ev = "act"
   /\ LET e == Trace[l]
-         upd == e.a \in {"Local", "Remote", "LocalRace", "RemoteSub", "RemoteUnsub"} /\ ~e.skipped
+         upd == e.a \in {"Local", "Remote", "Getter", "LocalRace", "RemoteSub", "RemoteUnsub"} /\ ~e.skipped
          prev == IF upd THEN val[e.ch] ELSE 0
          new == IF upd THEN e.val[e.ch] ELSE 0
          changed == upd /\ new # prev
@@ -29,7 +29,7 @@ Act ==
                   ELSE IF e.a \in {"Sub", "RemoteSub"} /\ e.ch \in Evented THEN want \cup {<<e.c, e.ch>>}
                   ELSE IF e.a \in {"Unsub", "RemoteUnsub"} THEN want \ {<<e.c, e.ch>>}
                   ELSE IF e.a \in {"Close", "Connect", "LocalRace"} THEN {s \in want : s[1] # e.c} ELSE want
-         origin == IF e.a \in {"Remote", "RemoteSub", "RemoteUnsub"} THEN e.c ELSE "app"
+         origin == IF e.a \in {"Remote", "Getter", "RemoteSub", "RemoteUnsub"} THEN e.c ELSE "app"
          expected == IF changed
                      THEN {c \o "|" \o e.ch \o "|" \o Num(new) : c \in {x \in open2 : x # origin /\ <<x, e.ch>> \in want}}
                      ELSE {}
